@@ -39,7 +39,7 @@ COMPONENTS = {
     "stub_or_harness": ["history generator", "spec/value generators", "reference spec parser (which members are public)"],
 }
 FAULT_KINDS = ["sibling_instance_created", "setattr_attempt", "delattr_attempt", "source_list_mutation", "returned_value_mutation_attempt"]
-PROBES = ["packet_write_method", "serialize_into_sanitising_writer", "array_element_mutation_attempt", "array_of_structs", "optional_array_present", "blob_on_deserialized_instance", "case_data_mutated_through_parent",
+PROBES = ["live_sequence_view_argument", "packet_write_method", "serialize_into_sanitising_writer", "array_element_mutation_attempt", "array_of_structs", "optional_array_present", "blob_on_deserialized_instance", "case_data_mutated_through_parent",
           "one_shot_iterator_argument", "nested_instance_setattr", "byte_size_setattr", "first_serialize_failed_skipped",
           "tree_rejected", "returned_value_was_mutable"]
 
@@ -52,6 +52,22 @@ def generate(streams, tier):
             "instances_per_class": 2 if tier == "quick" else 5}
 
 
+import collections.abc
+
+
+class LiveView(collections.abc.Sequence):
+    """A read-only sequence that is a live view of a caller-owned list (not a list, not a tuple)."""
+
+    def __init__(self, backing):
+        self._backing = backing
+
+    def __len__(self):
+        return len(self._backing)
+
+    def __getitem__(self, i):
+        return self._backing[i]
+
+
 class Instance:
     """A real object under test plus the caller-owned containers it was built from."""
 
@@ -60,6 +76,7 @@ class Instance:
         self.sources = []
         self.siblings = []
         self.iter_count = 0
+        self.view_count = 0
         if origin == "ctor":
             self.obj = self._build(value, [iter_mask])
         else:
@@ -72,11 +89,14 @@ class Instance:
         if isinstance(value, list):
             lst = [self._build(v, mask) for v in value]
             self.sources.append(lst)
-            use_iter = mask[0] & 1
-            mask[0] >>= 1
-            if use_iter:
+            kind = mask[0] & 3
+            mask[0] >>= 2
+            if kind == 1:
                 self.iter_count += 1
                 return iter(lst)
+            if kind == 2:
+                self.view_count += 1
+                return LiveView(lst)
             return lst
         if "enum" in value:
             return te.bridge.cls(value["enum"])(value["v"])
@@ -398,12 +418,14 @@ def execute(plan, env):
                 try:
                     val = vg.gen_class(cd)
                     origin = rng.choice(["ctor", "deserialize"])
-                    iter_mask = rng.getrandbits(8) if rng.random() < 0.4 else 0
+                    iter_mask = rng.getrandbits(16) if rng.random() < 0.5 else 0
                     if origin == "ctor":
                         inst = Instance(te, cd.name, "ctor", val, None, iter_mask)
                         case = {"cls": cd.name, "origin": "ctor", "value": val, "iter_mask": iter_mask}
                         if inst.iter_count:
                             res.count("probe.one_shot_iterator_argument")
+                        if inst.view_count:
+                            res.count("probe.live_sequence_view_argument")
                     else:
                         tmp = Instance(te, cd.name, "ctor", val)
                         data = tmp.serialize()
